@@ -87,7 +87,7 @@ Final ==
   \cup Chk(T.end.outcome # "quiescent" \/ T.end.drivers_done, "Hang")
   (* once no thread has work left a running object's queue is empty and no event is stuck between take and dispatch (C04) *)
   \cup Chk(~Quiet \/ \A a \in AOSet : (st[a] = "running" /\ T.end.fabric_up) => q[a] = <<>>, "LostWake")
-  \cup Chk(~Quiet \/ \A a \in AOSet : taken[a] = "" \/ Prefix(taken[a], "s:"), "TakenNotDispatched")
+  \cup Chk(~Quiet \/ \A a \in AOSet : taken[a] = "", "TakenNotDispatched")
   (* C13: with the fabric stopped, every object that was woken since has ended its thread *)
   \cup Chk(~Quiet \/ ~fabDown \/ \A a \in woken : ("ao_" \o a) \notin {T.end.alive[k] : k \in 1..Len(T.end.alive)}, "NotHaltedByFabricStop")
   \cup Inv
